@@ -302,6 +302,190 @@ def to_json_schema_returns_state():
     return found
 
 
+def wrapper_delegation():
+    """{wrapper kind: which option `<Wrapper>.serialize` hands every value to}, read off multified_wrappers.py:
+    `return <self.get_fields()[0]>.serialize(value)` -> "first"; `self._not_nonefield.serialize(value)` with
+    `_not_nonefield` assigned inside the loop over the options in `__init__` -> "last-non-none";
+    `raise` -> "raises"; anything else -> "first-fit" (value directed)"""
+    tree = _parse("fields/multified_wrappers.py")
+    out = {}
+    for kind, cls in (("anyOf", "AnyOf"), ("allOf", "AllOf"), ("oneOf", "OneOf"), ("notF", "NotField")):
+        fn = _find(tree, cls, "serialize")
+        if fn is None:
+            out[kind] = "first-fit"
+            continue
+        src = ast.unparse(fn)
+        if any(isinstance(n, ast.Raise) for n in ast.walk(fn)) and not any(isinstance(n, ast.Return) for n in ast.walk(fn)):
+            out[kind] = "raises"
+        elif "_not_nonefield" in src:
+            init = _find(tree, cls, "__init__")
+            loops = [n for n in ast.walk(init) if isinstance(n, ast.For)] if init else []
+            in_loop = any("_not_nonefield" in ast.unparse(l) for l in loops)
+            brk = any(isinstance(n, ast.Break) for l in loops for n in ast.walk(l))
+            out[kind] = ("first-non-none" if brk else "last-non-none") if in_loop else "first-fit"
+        elif "get_fields()[0]" in src:
+            out[kind] = "first"
+        elif "get_fields()[-1]" in src:
+            out[kind] = "last"
+        else:
+            out[kind] = "first-fit"
+    return out
+
+
+# ------------------------------------------------------------------ what `<Field>.__set__` stores / `serialize_val` returns
+
+def _final_store_arg(fn, param="value"):
+    """the expression a `__set__` finally stores: the 2nd argument of its LAST top-level `super().__set__(instance, X)`
+    (the trusted short cut `if ..._trust_supplied_values...: super().__set__(...); return` is by contract and skipped)"""
+    last = None
+    for st in fn.body:
+        if isinstance(st, ast.Expr) and isinstance(st.value, ast.Call):
+            c = st.value
+            if isinstance(c.func, ast.Attribute) and c.func.attr == "__set__" and isinstance(c.func.value, ast.Call) \
+                    and isinstance(c.func.value.func, ast.Name) and c.func.value.func.id == "super" and len(c.args) == 2:
+                last = c.args[1]
+    return last
+
+
+def _is_copy_expr(e, param):
+    """an expression that builds a new object (a call other than a bare pass-through, a comprehension, a literal)"""
+    if isinstance(e, (ast.ListComp, ast.DictComp, ast.SetComp, ast.List, ast.Dict, ast.Set, ast.Tuple)):
+        return True
+    if isinstance(e, ast.Call):
+        return True
+    if isinstance(e, ast.IfExp):
+        # `value if isinstance(value, frozenset) else frozenset(value)`: the kept branch is an immutable object
+        return _is_copy_expr(e.orelse, param) or _is_copy_expr(e.body, param)
+    return False
+
+
+def wrapper_store_modes():
+    """{kind: "alias" | "rebuild"} for the multi-field wrappers' `__set__`: `super().__set__(instance, value)` with the
+    parameter itself keeps the caller's object; `super().__set__(instance, instance.__dict__[self._name])` (what the
+    matched option stored) delegates the copy to the option"""
+    tree = _parse("fields/multified_wrappers.py")
+    out = {}
+    for kind, cls in (("anyOf", "AnyOf"), ("oneOf", "OneOf"), ("allOf", "AllOf"), ("notF", "NotField")):
+        fn = _find(tree, cls, "__set__")
+        if fn is None:
+            continue
+        x = _final_store_arg(fn)
+        if x is None:
+            continue
+        if isinstance(x, ast.Name) and x.id == "value":
+            # still the parameter, unless it was rebound to what an option stored (`value = instance.__dict__[...]`)
+            rebound = any(isinstance(st, ast.Assign) and any(isinstance(t, ast.Name) and t.id == "value" for t in st.targets)
+                          for st in ast.walk(fn))
+            out[kind] = "rebuild" if rebound else "alias"
+        else:
+            out[kind] = "rebuild"
+    return out
+
+
+def coll_store_modes():
+    """{(kind, "typed" | "untyped"): mode} for Set / ImmutableSet / Tuple `__set__` (the collections without a typed
+    wrapper class): is what is finally stored still the parameter object on some non-trusted path?"""
+    out = {}
+    for kind, rel, cls in (("set", "fields/set_field.py", "Set"), ("immSet", "fields/set_field.py", "ImmutableSet"),
+                           ("tuple", "fields/tuple_field.py", "Tuple")):
+        fn = _find(_parse(rel), cls, "__set__")
+        if fn is None:
+            continue
+        x = _final_store_arg(fn)
+        if x is None:
+            continue
+        if not (isinstance(x, ast.Name) and x.id == "value"):
+            # stored through another name: look at how that name was bound
+            binds = [st.value for st in ast.walk(fn) if isinstance(st, ast.Assign)
+                     and any(isinstance(t, ast.Name) and isinstance(x, ast.Name) and t.id == x.id for t in st.targets)]
+            m = "rebuild" if binds and all(_is_copy_expr(b, "value") for b in binds) else "alias"
+            out[(kind, "typed")] = out[(kind, "untyped")] = m
+            continue
+        # stored as `value`: unconditional top-level rebinding, or rebinding per branch of an if-chain
+        top = [st for st in fn.body if isinstance(st, ast.Assign)
+               and any(isinstance(t, ast.Name) and t.id == "value" for t in st.targets)]
+        if any(_is_copy_expr(st.value, "value") for st in top):
+            out[(kind, "typed")] = out[(kind, "untyped")] = "rebuild"
+            continue
+        typed = untyped = "alias"
+        for st in fn.body:
+            if not isinstance(st, ast.If) or "_trust_supplied_values" in ast.unparse(st.test):
+                continue
+            node = st
+            while isinstance(node, ast.If):
+                assigns = [a for a in node.body if isinstance(a, ast.Assign)
+                           and any(isinstance(t, ast.Name) and t.id == "value" for t in a.targets)
+                           and _is_copy_expr(a.value, "value")]
+                if assigns:
+                    if "items" in ast.unparse(node.test):
+                        typed = "rebuild"
+                    else:
+                        untyped = "rebuild"
+                node = node.orelse[0] if len(node.orelse) == 1 and isinstance(node.orelse[0], ast.If) else None
+        out[(kind, "typed")], out[(kind, "untyped")] = typed, untyped
+    return out
+
+
+def serialize_val_modes():
+    """{label: mode} read off `serialize_val` (the regular Serializer): what the branch of each collection kind
+    returns — a comprehension (rebuild) or the stored value itself (alias).  labels: map, pos, typed, untyped, tuple,
+    generic-seq, struct, wrapper"""
+    fn = _find_fn(_parse("serialization/serialization.py"), "serialize_val")
+    if fn is None:
+        return {}
+    param = "val"
+    out = {}
+
+    def ret_mode(e):
+        m = _expr_mode(e, param)
+        if m:
+            return m
+        if isinstance(e, ast.Call):
+            return "rebuild"          # delegates to another serializer function
+        return None
+
+    def returns_in(stmts):
+        return [n.value for st in stmts for n in ast.walk(st) if isinstance(n, ast.Return) and n.value is not None]
+
+    for st in fn.body:
+        if not isinstance(st, ast.If):
+            continue
+        test = ast.unparse(st.test)
+        if "SizedCollection" in test:
+            for sub in st.body:
+                if isinstance(sub, ast.If) and "Map" in ast.unparse(sub.test):
+                    ms = {ret_mode(r) for r in returns_in(sub.body)}
+                    out["map"] = "alias" if "alias" in ms else "rebuild" if ms == {"rebuild"} else None
+                elif isinstance(sub, ast.If):
+                    node, labels = sub, []
+                    while isinstance(node, ast.If):
+                        t = ast.unparse(node.test)
+                        lab = "pos" if "list" in t else "typed" if "Field" in t else None
+                        rs = returns_in(node.body)
+                        if lab and rs:
+                            out[lab] = ret_mode(rs[0])
+                        if node.orelse and not (len(node.orelse) == 1 and isinstance(node.orelse[0], ast.If)):
+                            rs = returns_in(node.orelse)
+                            if rs:
+                                out["untyped"] = ret_mode(rs[0])
+                            node = None
+                        else:
+                            node = node.orelse[0] if node.orelse else None
+        elif "Tuple" in test and "tuple" in test:
+            rs = returns_in(st.body)
+            if rs:
+                out["tuple"] = ret_mode(rs[0])
+        elif "MultiFieldWrapper" in test:
+            rs = returns_in(st.body)
+            if rs:
+                out["wrapper"] = ret_mode(rs[0])
+        elif "isinstance(val, Structure)" in test and "ClassReference" in ast.unparse(st):
+            rs = returns_in(st.body)
+            if rs:
+                out["struct"] = ret_mode(rs[-1])
+    return {k: v for k, v in out.items() if v}
+
+
 def wrapper_ctor_copies():
     """{kind: True/False}: the typed wrapper's constructor copies the incoming collection (`super().__init__(x)`)"""
     tree = _parse("fields/collections_impl.py")
@@ -316,9 +500,32 @@ def wrapper_ctor_copies():
     return out
 
 
+def owner_copy_idioms():
+    """{"in": bool, "set": bool, "out": bool}: the defensive deep copies of immutable owners, read off structures.py —
+    `Structure.__setattr__` (`value = deepcopy(value) ...` under an IS_IMMUTABLE test), `Field.__set__`
+    (`deepcopy(value)` under IS_IMMUTABLE) and `Field.__get__` (`return deepcopy(res) if (is_immutable ...`)"""
+    tree = _parse("structures/structures.py")
+
+    def has_deepcopy_of(fn, name):
+        if fn is None:
+            return None
+        guarded = "IS_IMMUTABLE" in ast.unparse(fn) or "is_immutable" in ast.unparse(fn)
+        calls = [n for n in ast.walk(fn) if isinstance(n, ast.Call) and ast.unparse(n.func).endswith("deepcopy")
+                 and n.args and isinstance(n.args[0], ast.Name) and n.args[0].id == name]
+        return bool(calls) and guarded
+    return {"in": has_deepcopy_of(_find(tree, "Structure", "__setattr__"), "value"),
+            "set": has_deepcopy_of(_find(tree, "Field", "__set__"), "value"),
+            "out": has_deepcopy_of(_find(tree, "Field", "__get__"), "res")}
+
+
 def ast_readings():
     """{(op, kind, cat): astMode}"""
     out = {}
+    own = owner_copy_idioms()
+    for op, key in (("construct", "in"), ("deserialize", "in"), ("setattr", "set"), ("serialize", "out"),
+                    ("fieldSerialize", "out"), ("fastSerialize", "out")):
+        if own.get(key) is not None:
+            out[(op, "owner", "none")] = "deep" if own[key] else "alias"
     delegates = fast_delegates()
     for kind in list(COLL_FILES) + ["immSet"]:
         modes = coll_serialize_modes("set" if kind == "immSet" else kind)
@@ -345,6 +552,54 @@ def ast_readings():
         for op in ("construct", "setattr"):
             for cat in ("number", "string", "scalar", "coll", "inline", "wrap", "untyped", "any", "struct"):
                 out[(op, kind, cat)] = "rebuild" if copies else "alias"
+    # what the multi-field wrappers' `__set__` finally stores (visible where the option is a container: the rows of
+    # scalar / by-reference options show the option's behaviour, not the wrapper's)
+    for kind, m in wrapper_store_modes().items():
+        for op in ("construct", "setattr"):
+            for cat in (("untyped",) if kind == "notF" else ("coll", "inline", "wrap")):
+                out[(op, kind, cat)] = m
+    # Set / ImmutableSet / Tuple `__set__`
+    for (kind, typed), m in coll_store_modes().items():
+        cats = ("untyped",) if typed == "untyped" else ("number", "string", "scalar", "any", "coll", "struct", "inline", "wrap")
+        for op in ("construct", "setattr"):
+            for cat in cats:
+                out[(op, kind, cat)] = m
+                if kind == "tuple":
+                    out[(op, "tuplePos", "none")] = m
+    # `<Wrapper>.serialize` (fast serialization, <field>.serialize): a delegation `<option>.serialize(value)` hands on
+    # what the option builds; OneOf.serialize raises
+    for kind, how in wrapper_delegation().items():
+        if kind == "notF" or how == "first-fit":
+            continue
+        for op in ("fieldSerialize",) + (("fastSerialize",) if delegates else ()):
+            for cat in ("number", "string", "scalar", "any", "coll", "struct", "inline", "wrap"):
+                out[(op, kind, cat)] = "error" if how == "raises" else "rebuild"
+    # the regular Serializer: `serialize_val`
+    sv = serialize_val_modes()
+    allcats = ("number", "string", "scalar", "any", "coll", "struct", "inline", "wrap")
+    if "map" in sv:
+        for cat in allcats + ("untyped",):
+            out[("serialize", "map", cat)] = sv["map"]
+    if "typed" in sv:
+        for kind in ("array", "deque", "set", "immSet"):
+            for cat in allcats:
+                out[("serialize", kind, cat)] = sv["typed"]
+    if "untyped" in sv:
+        for kind in ("array", "deque", "set", "immSet"):
+            out[("serialize", kind, "untyped")] = sv["untyped"]
+    if "pos" in sv:
+        for kind in ("arrayPos", "dequePos"):
+            out[("serialize", kind, "none")] = sv["pos"]
+    if "tuple" in sv:
+        out[("serialize", "tuplePos", "none")] = sv["tuple"]
+        for cat in allcats:
+            out[("serialize", "tuple", cat)] = sv["tuple"]
+    if "wrapper" in sv:
+        for kind in ("anyOf", "oneOf", "allOf"):
+            for cat in allcats:
+                out[("serialize", kind, cat)] = sv["wrapper"]
+    if "struct" in sv:
+        out[("serialize", "struct", "none")] = out[("serialize", "inline", "none")] = sv["struct"]
     return out
 
 
@@ -364,7 +619,7 @@ def probe_row(op, kind, cat, impl, node_path):
     paths = [list(p) for p in impl.get("shared_paths", [])]
     node_shared = node_path in paths
     below = _descendant_shared(paths, node_path)
-    leaf_site = kind in ("any", "document", "mapping", "names", "required", "enumValues", "default", "schema",
+    leaf_site = kind in ("any", "owner", "document", "mapping", "names", "required", "enumValues", "default", "schema",
                          "fieldState")
     is_input = op in ("construct", "setattr", "deserialize", "derive")
     aliased = node_shared or (leaf_site and kind not in ("any",) and below)
@@ -383,7 +638,8 @@ def mode_of_row(op, kind, row):
     if row["returns"] == "raises":
         return "error"
     is_input = op in ("construct", "setattr", "deserialize", "derive")
-    leaf = kind in ("any", "document", "mapping", "names", "required", "enumValues", "default", "schema", "fieldState")
+    leaf = kind in ("any", "owner", "document", "mapping", "names", "required", "enumValues", "default", "schema",
+                    "fieldState")
     if is_input:
         return "alias" if row["retainsArg"] else "shallow" if row["shallow"] else "deep" if leaf or row.get("deep") else "rebuild"
     if row["returns"] in ("fresh", "scalar"):
@@ -397,8 +653,9 @@ def agree(ast_mode, op, kind, row):
     m = mode_of_row(op, kind, row)
     if ast_mode in ("mutates", "keeps"):
         return (ast_mode == "mutates") == row["argMutated"]
-    if m == "error":
-        return True          # the idiom says how the value would be copied; the probe could not get that far
+    if m == "error" or ast_mode == "error":
+        return True          # the idiom says how the value would be copied; the probe could not get that far (and a
+                             # site the source says raises hands out nothing)
     if ast_mode == "rebuild":
         return m in ("rebuild", "deep")
     if ast_mode == "deep":
@@ -432,9 +689,9 @@ def probe_all():
             impl = S.run_impl(c)
             if "unbuildable" in impl:
                 continue
-            node = [] if op in ("setattr", "fieldSerialize") else ["f"]
-            chain = S.site_chain(impl.get("shape") or {"s": "scalar"}, node)
-            if (kind, cat) not in [(k, c) for d, k, c in chain if d == len(node)]:
+            node = [] if op in ("setattr", "fieldSerialize") else ["opt"] if kind == "owner" else ["f"]
+            chain = S.site_chain(impl.get("rshape") or impl.get("shape") or {"s": "scalar"}, node)
+            if kind != "owner" and (kind, cat) not in [(k, c) for d, k, c in chain if d == len(node)]:
                 continue      # for this operation the witness does not exercise that site (value-directed shape)
             r = probe_row(op, kind, cat, impl, node)
             paths = [list(q) for q in impl.get("shared_paths", [])] if impl.get("ok") else []
@@ -595,11 +852,31 @@ def probe_all_isolated():
     return [(op, kind, cat, row) for op, kind, cat, row in json.loads(data)]
 
 
+def render_api(namespace="Typedpy.Generated"):
+    """the public callables of the imported typedpy package (introspection) and the names the alias suite has an
+    executable probe for -> Generated/AliasApi.lean (obligations `api_covered`, `api_rows_probed`)"""
+    from harness.suites import alias_api as A
+    api = A.public_api()
+    probed = A.probed_names()
+    lines = ["/- GENERATED by extract/aliasing.py from the typedpy working tree — do not edit. -/",
+             f"namespace {namespace}", "",
+             "/-- (name, kind) of every public, non-module attribute of the `typedpy` package and every public method of",
+             "    its entry-point classes; kind = function | method | class | structure | field | exception | value -/",
+             "def publicApi : List (String × String) := ["]
+    lines.append(",\n".join(f"  ({lean_str(n)}, {lean_str(k)})" for n, k in api))
+    lines += ["]", "", "/-- names for which harness/suites/alias_api.py has an executable probe or an operation stream -/",
+              "def apiProbed : List String := ["]
+    lines.append(",\n".join(f"  {lean_str(n)}" for n in probed))
+    lines += ["]", "", f"end {namespace}", ""]
+    return "\n".join(lines)
+
+
 def generate():
     rows = probe_all_isolated()
     readings = ast_readings()
     text = render(rows, readings)
     changed = write_if_changed("Aliasing.lean", text)
+    changed = write_if_changed("AliasApi.lean", render_api()) or changed
     return rows, readings, changed
 
 
